@@ -460,3 +460,108 @@ Proof.
   - apply I.
   - apply lmoves_kept, B.
 Qed.
+
+Lemma framed_mid e s sm s' new u K :
+  NoDup (map t_id (s_roster s ++ new)) ->
+  emoves e (s_roster s ++ new) (s_roster sm) ->
+  envs_kept e (s_envs s) (s_envs sm) ->
+  good e sm s' K ->
+  (forall k, In k (ks u) -> In k K \/ touched e (s_roster s ++ new) k) ->
+  framed e s s' u.
+Proof.
+  intros Hnd Hm He [A [B [C D]]] Hk. exists new. repeat split; auto.
+  - eapply emoves_trans; eauto.
+  - eapply envs_kept_trans; [exact He|apply lmoves_kept, B].
+  - intros k Hin. destruct (Hk k Hin) as [H|H]; [|exact H].
+    eapply touched_mono; [exact Hm|]. apply D, H.
+Qed.
+
+Lemma launch_ids e l : map t_id (map (launch_task e) l) = map (fun ir => tid_of e (fst ir)) l.
+Proof. rewrite map_map. apply map_ext. intro ir. reflexivity. Qed.
+
+Lemma finish_spec e c s s' u :
+  inv s -> finish e c s = (s', u) -> inv s' /\ framed e s s' u.
+Proof.
+  intros I. unfold finish.
+  destruct (assocN e (s_snaps s)) as [snapdets|] eqn:Ea.
+  2:{ intro H; injection H as <- <-. split; [exact I|]. apply good_framed; [exact I|apply good_refl]. }
+  apply assocN_In in Ea.
+  set (s0 := mkSt (s_envs s) (s_roster s) (remove_snap e (s_snaps s))).
+  assert (I0 : inv s0) by (apply inv_remove_snap, I).
+  assert (F0 : framed e s s0 (out_rc 1)).
+  { exists []. rewrite app_nil_r. repeat split; [apply I|constructor|apply envs_kept_refl|intros k []]. }
+  destruct (N.leb 1 (c_fail c) && N.leb (c_fail c) 3).
+  { intro H; injection H as <- <-. auto. }
+  destruct (existsb _ (c_dets c)).
+  { intro H; injection H as <- <-. auto. }
+  set (x0 := mkEnv e (c_dets c) ES_STANDBY (c_roles c) false 0).
+  destruct (N.eqb (c_fail c) 4).
+  { (* a critical role nobody can take: nothing was launched *)
+    set (xe := set_estate ES_ERROR x0).
+    destruct (create_tail xe _ [] []) as [s2 u2] eqn:Ec. intro H; injection H as <- <-.
+    apply create_tail_good in Ec. destruct Ec as [G Ecm]. change (e_id xe) with e in G.
+    assert (Im : inv (with_envs s0 (s_envs s0 ++ [xe]))).
+    { pose proof (inv_launch s e snapdets xe [] I Ea eq_refl) as L. rewrite app_nil_r in L.
+      apply L; [constructor|intros t []]. }
+    split; [eapply good_inv; eauto|].
+    eapply (framed_mid e s _ s2 []); [rewrite app_nil_r; apply I| | |exact G|].
+    - rewrite app_nil_r. constructor.
+    - cbn [with_envs s_envs s0]. apply envs_kept_app.
+    - intros k Hk. unfold ks in Hk. rewrite Ecm, app_nil_r in Hk. left. exact Hk. }
+  set (x1 := set_bound x0).
+  set (new := map (launch_task e) (task_iroles x1)).
+  assert (Hids : map t_id new = bound_tids x1).
+  { unfold new. rewrite launch_ids. reflexivity. }
+  assert (Hnd : NoDup (map t_id new)) by (rewrite Hids; apply bound_tids_nodup).
+  assert (Hnew : forall x, e_id x = e -> e_roles x = e_roles x1 -> e_bound x = true ->
+                 forall t, In t new -> t_owner t = Some e /\ In (t_id t) (bound_tids x)).
+  { intros x X1 X2 X3 t Ht. split.
+    - unfold new in Ht. apply in_map_iff in Ht. destruct Ht as [ir [<- _]]. reflexivity.
+    - rewrite (bound_tids_shape x x1) by (auto). rewrite <- Hids. apply in_map, Ht. }
+  assert (IL : forall x, e_id x = e -> e_roles x = e_roles x1 -> e_bound x = true ->
+               inv (mkSt (s_envs s ++ [x]) (s_roster s ++ new) (remove_snap e (s_snaps s)))).
+  { intros x X1 X2 X3. eapply inv_launch; eauto. }
+  assert (NDall : NoDup (map t_id (s_roster s ++ new))).
+  { apply (inv_nodup _ (IL x1 eq_refl eq_refl eq_refl)). }
+  destruct (existsb _ (c_roles c) || N.eqb (c_fail c) 5).
+  { (* a task failed right after its launch / the deployment timed out *)
+    set (xe := set_estate ES_ERROR x1).
+    destruct (create_tail xe _ [] _) as [s2 u2] eqn:Ec. intro H; injection H as <- <-.
+    apply create_tail_good in Ec. destruct Ec as [G Ecm]. change (e_id xe) with e in G.
+    split; [eapply good_inv; [|exact G]; apply (IL xe); reflexivity|].
+    eapply (framed_mid e s _ s2 new); [exact NDall| | |exact G|].
+    - cbn [s_roster s0]. constructor.
+    - cbn [s_envs s0]. apply envs_kept_app.
+    - intros k Hk. unfold ks in Hk. rewrite Ecm, app_nil_r in Hk. left. exact Hk. }
+  (* CONFIGURE *)
+  set (r1 := s_roster s0 ++ new).
+  set (targets := active_owned_in e (bound_tids x1) r1).
+  set (refuse := map _ (filter _ (task_iroles x1))).
+  set (r2 := command e targets refuse TS_CONFIGURED r1).
+  set (x2 := set_pend (pend_roles x1) x1).
+  assert (Tt : forall k, In k targets -> touched e (s_roster s ++ new) k).
+  { intros k Hk. eapply active_owned_touched. exact Hk. }
+  assert (I2 : forall x, e_id x = e -> e_roles x = e_roles x1 -> e_bound x = true ->
+               inv (mkSt (s_envs s ++ [x]) r2 (remove_snap e (s_snaps s)))).
+  { intros x X1 X2 X3. eapply good_inv; [apply (IL x X1 X2 X3)|].
+    apply (good_mk e (mkSt (s_envs s ++ [x]) (s_roster s ++ new) (remove_snap e (s_snaps s))) r2 (s_envs s ++ [x]) []).
+    - constructor. constructor.
+    - constructor.
+    - intros k []. }
+  destruct (existsb _ (c_roles c)).
+  { set (xe := set_estate ES_ERROR x2).
+    destruct (create_tail xe _ targets _) as [s2 u2] eqn:Ec. intro H; injection H as <- <-.
+    apply create_tail_good in Ec. destruct Ec as [G Ecm]. change (e_id xe) with e in G.
+    split; [eapply good_inv; [|exact G]; apply (I2 xe); reflexivity|].
+    eapply (framed_mid e s _ s2 new); [exact NDall| | |exact G|].
+    - cbn [s_roster]. constructor. constructor.
+    - cbn [s_envs s0]. apply envs_kept_app.
+    - intros k Hk. unfold ks in Hk. rewrite Ecm in Hk. apply in_app_or in Hk.
+      destruct Hk as [Hk|Hk]; [left; exact Hk|right; apply Tt, Hk]. }
+  intro H; injection H as <- <-.
+  split; [apply (I2 (set_estate ES_CONFIGURED x2)); reflexivity|].
+  eapply (framed_mid e s _ _ new); [exact NDall| | |apply good_refl|].
+  - cbn [s_roster]. constructor. constructor.
+  - cbn [s_envs s0]. apply envs_kept_app.
+  - intros k Hk. unfold ks in Hk. cbn [o_kills o_cmds app] in Hk. right. apply Tt, Hk.
+Qed.
